@@ -158,7 +158,7 @@ def callerId (c : Dkg.Cluster) (name : String) : Nat :=
   | none => 0
 
 def faultKind (f : String) : Dkg.GenFault :=
-  if f == "-" then .none else
+  if f == "-" || f == "nopass" then .none else
   let k := (f.splitOn ":").headD ""
   if k == "drop" || k == "err" then .lost
   else if k == "commitpub" || k == "commitsig" || k == "equiv" then .badCommitReply
@@ -233,6 +233,17 @@ def dstepCore (st : DState) (line : String) : DState × Option String :=
       match createAccount st.inst.cfg c acct acct.toUTF8.toList with
       | some cfg' => ({ st with inst := { st.inst with cfg := cfg' } }, some "ok")
       | none => (st, some "err")
+    | _, _ => bad st line
+  -- wallet manager: lock / unlock a wallet (permission on the wallet name, the wallet must exist); no effect on listings
+  | ["lockwallet", c, wn] =>
+    match unhexStr c, unhexStr wn with
+    | some c, some wn =>
+      (st, some (if walletExists st.inst.cfg wn && check st.inst.cfg.access c wn opLockWallet then "S" else "D"))
+    | _, _ => bad st line
+  | ["unlockwallet", c, wn] =>
+    match unhexStr c, unhexStr wn with
+    | some c, some wn =>
+      (st, some (if walletExists st.inst.cfg wn && check st.inst.cfg.access c wn "Unlock wallet" then "S" else "D"))
     | _, _ => bad st line
   -- judge C18: the implementation reported that it created this account (so later listings must show it)
   | ["jcreate", acct] =>
@@ -420,6 +431,17 @@ def dstepCore (st : DState) (line : String) : DState × Option String :=
       let base := clusterInst st.minsts i w a
       let (s', p) := signAtt base "client1" { name := acct } d {} false
       ({ st with minsts := (i, s') :: st.minsts.filter (·.1 != i) }, some (posStr p))
+    | _, _, _ => bad st line
+  -- an attestation whose write stalls while its client's deadline passes: for the model it is an ordinary request
+  | ["iattx", i, acct, d, _dl, _stall] =>
+    match i.toNat?, unhexStr acct, parseAtt (d.splitOn ",") with
+    | some i, some acct, some d =>
+      let wa := match walletAndAccount acct with
+        | some p => p
+        | none => ("", "")
+      let base := clusterInst st.minsts i wa.1 wa.2
+      let r := signAtt base "client1" { name := acct } d {} false
+      ({ st with minsts := (i, r.1) :: st.minsts.filter (·.1 != i) }, some (posStr r.2))
     | _, _, _ => bad st line
   -- the same through the batch endpoint (a batch of one)
   | ["iatts", i, acct, d] =>
